@@ -44,6 +44,10 @@ pub struct Config {
     /// None = unset, Some(true) = prg, Some(false) = bin
     pub format: Option<bool>,
     pub out_name: Option<String>,
+    /// 0: `.segment "x" { .. }` blocks behind the definitions; 1: the blocks in front of the definitions; 2: `.segment "x"`
+    /// without a block, one after the other; 3: as 2, and the bytes of the first segment without any `.segment` at all
+    #[serde(default)]
+    pub style: u8,
 }
 
 #[derive(Clone, Debug, Hash, PartialEq, Eq, Serialize, Deserialize)]
@@ -76,7 +80,8 @@ pub fn config_of(c: &Case) -> Config {
     for i in 0..ns {
         let name = format!("sg{}", i);
         let maxlen = if e.chance(1, 4) { 120 } else { 12 };
-        let len = 1 + e.below(maxlen);
+        // (one in eight holds nothing at all, e.g. a segment that is only there for its labels)
+        let len = if e.chance(1, 8) { 0 } else { 1 + e.below(maxlen) };
         let data: Vec<u8> = (0..len).map(|k| (0x10 * (i as u8 + 1)).wrapping_add(k as u8)).collect();
         let start = if i > 0 && e.chance(1, 3) {
             let prev = segs[e.below(i)].name.clone();
@@ -109,7 +114,7 @@ pub fn config_of(c: &Case) -> Config {
         segs.push(SegCfg {
             name,
             start,
-            pc: if e.chance(1, 5) { Some(*e.pick(&[0x8000i64, 0x0400, 0xe000])) } else { None },
+            pc: if e.chance(1, 5) { Some(*e.pick(&[0x8000i64, 0x0400, 0xe000, 0xfff8])) } else { None },
             write: if e.chance(1, 5) { Some(e.chance(1, 2)) } else { None },
             bank,
             data,
@@ -127,7 +132,12 @@ pub fn config_of(c: &Case) -> Config {
         _ => Some(false),
     };
     let out_name = if e.chance(1, 3) { Some("out.dat".to_string()) } else { None };
-    Config { banks, segs, format, out_name }
+    let mut style = if e.chance(1, 2) { 0 } else { 1 + e.below(3) as u8 };
+    if style == 3 && banks.iter().any(|b| b.create_segment) {
+        // (the segment a bank creates is defined first: what is not sent anywhere would go there)
+        style = 2;
+    }
+    Config { banks, segs, format, out_name, style }
 }
 
 pub fn project_of(cfg: &Config) -> (Project, String) {
@@ -172,13 +182,26 @@ pub fn project_of(cfg: &Config) -> (Project, String) {
         }
         t.push_str("}\n");
     }
-    for s in &cfg.segs {
+    let mut body = String::new();
+    for (i, s) in cfg.segs.iter().enumerate() {
         let bytes: Vec<String> = s.data.iter().map(|b| format!("${:02x}", b)).collect();
-        t.push_str(&format!(".segment \"{}\" {{\n", s.name));
-        for ch in bytes.chunks(16) {
-            t.push_str(&format!("    .byte {}\n", ch.join(", ")));
+        let block = cfg.style <= 1;
+        if block {
+            body.push_str(&format!(".segment \"{}\" {{\n", s.name));
+        } else if !(cfg.style == 3 && i == 0) {
+            body.push_str(&format!(".segment \"{}\"\n", s.name));
         }
-        t.push_str("}\n");
+        for ch in bytes.chunks(16) {
+            body.push_str(&format!("    .byte {}\n", ch.join(", ")));
+        }
+        if block {
+            body.push_str("}\n");
+        }
+    }
+    if cfg.style == 1 {
+        t = format!("{}{}", body, t);
+    } else {
+        t.push_str(&body);
     }
     let mut toml = String::from("[build]\nentry = \"main.asm\"\n");
     match cfg.format {
@@ -220,8 +243,17 @@ pub fn expected(cfg: &Config) -> Expected {
         match ranges.get(&s.name) {
             None => return Expected::Unspecified("unresolvable start".into()),
             Some((a, b)) => {
+                if s.data.is_empty() && (*a < 0 || *a > 0xffff) {
+                    // no data, but no address either
+                    return Expected::Unspecified("empty segment outside of the address space".into());
+                }
                 if *a < 0 || *b > 0x10000 {
                     return Expected::Rejected(format!("segment {} outside $0000-$FFFF", s.name));
+                }
+                if let Some(pc) = s.pc {
+                    if pc + (*b - *a) > 0x10000 {
+                        return Expected::Rejected(format!("the code of segment {} is placed beyond $FFFF", s.name));
+                    }
                 }
             }
         }
@@ -257,6 +289,8 @@ pub fn expected(cfg: &Config) -> Expected {
             .segs
             .iter()
             .filter(|s| s.write.unwrap_or(true))
+            // (a segment nothing is emitted to writes no address)
+            .filter(|s| !s.data.is_empty())
             .filter(|s| match &s.bank {
                 Some(n) => n == &b.name,
                 None => default_only,
@@ -298,9 +332,6 @@ pub fn expected(cfg: &Config) -> Expected {
     }
     let default_name = cfg.out_name.clone().unwrap_or_else(|| format!("main.{}", if prg { "prg" } else { "bin" }));
     if prg {
-        if images[0].0.filename.is_some() {
-            return Expected::Unspecified("prg output with a bank filename".into());
-        }
         if images[0].1.is_none() {
             return Expected::Unspecified("prg output of an empty first bank".into());
         }
@@ -308,7 +339,9 @@ pub fn expected(cfg: &Config) -> Expected {
     let mut files: BTreeMap<String, Vec<u8>> = BTreeMap::new();
     if prg {
         let st = images[0].1.unwrap();
-        files.entry(default_name.clone()).or_default().extend([(st & 0xff) as u8, ((st >> 8) & 0xff) as u8]);
+        // (the header is the prefix of the first bank's image: it goes to the file that bank goes to)
+        let header_file = images[0].0.filename.clone().unwrap_or(default_name.clone());
+        files.entry(header_file).or_default().extend([(st & 0xff) as u8, ((st >> 8) & 0xff) as u8]);
     }
     for (b, _, img) in &images {
         let name = b.filename.clone().unwrap_or(default_name.clone());
